@@ -28,7 +28,7 @@ META = {
     'components_stub': ['S3 bucket', 'uuid, clock', 'service and environment'],
     'budgets': {'quick': {'seconds': 25}, 'thorough': {'seconds': 420}},
     'required_probes': {'thorough': ['ordinal_ge_10', 'edit_change_arg', 'edit_drop', 'edit_add', 'edit_swap', 'edit_raise',
-                                     'handler_output', 'static_output', 'operation_raised']},
+                                     'handler_output', 'static_output', 'operation_raised', 'two_threads_same_alias', 'unserializable_exception_raised_earlier']},
 }
 
 
@@ -98,9 +98,87 @@ def all_positions(steps):
         yield steps, n
 
 
+class BadState(object):
+    def __getstate__(self):
+        raise RuntimeError('cannot serialize')
+
+
+def poison(run):
+    """History step: some other operation in this process raised exceptions (of the classes used here) that could not
+    be serialized - e.g. an error object holding a live connection.  Later, serializable, exceptions of the same classes
+    must still be captured as exceptions."""
+    from playback.tape_cassettes.in_memory.in_memory_tape_cassette import InMemoryTapeCassette
+    rec = TapeRecorder(InMemoryTapeCassette())
+    rec.enable_recording()
+    for cls in R.D.EXC_CLASSES:
+        class Op(object):
+            @rec.operation()
+            def execute(self):
+                e = cls()
+                e.connection = BadState()
+                raise e
+        try:
+            Op().execute()
+        except Exception:
+            pass
+    run.probe('unserializable_exception_raised_earlier')
+
+
+def threaded_same_alias(tape, clock):
+    """Two worker threads of the operation send through the SAME output alias (with a data handler) at the same time,
+    under the seeded line-level scheduler: still one entry per call, ordinals 1..n each once, values = what was sent."""
+    import os
+    from simkit import REPO
+    from simkit.sim import Sim, SimDeadlock
+    run = Run(PROP)
+    run.probe('two_threads_same_alias')
+    spec = R.ServiceSpec()
+    o = R.OutputSpec(0, alias=tape.choice(['out0', 'send results 0']))
+    o.handler = bool(tape.draw(2))
+    spec.outputs = [o]
+    n1, n2 = 1 + tape.draw(3), 1 + tape.draw(3)
+    bodies = [[['out', 0, (('t%d-%d' % (t, k),), {}), ('value', 'r'), None] for k in range(n)] for t, n in ((0, n1), (1, n2))]
+    spec.body = [['spawn', bodies, False]]
+    sim = Sim(tape, run, preempt_p=tape.choice([0.1, 0.3, 0.6]), target_files=[os.path.join(REPO, 'playback', 'tape_recorder.py')], max_steps=60000)
+    store = C.gen_store(tape, clock, kinds=['memory', 'file'])
+    try:
+        res = {}
+
+        def main():
+            res['rec'] = R.record_once(spec, run, store.open(), rseed=1, thread_factory=R.sim_thread_factory(sim), sent=True)
+        try:
+            sim.run_main(main)
+        except SimDeadlock as ex:
+            run.violate('one_entry_per_call', 'deadlock', str(ex))
+            return run
+        rec = res['rec']
+        run.nontrivial = sim.switches > 2
+        if not rec.saved:
+            run.violate('recording_saved', 'not-saved', 'recording not saved')
+            return run
+        r = store.open(read_only=True).get_recording(rec.rec_id)
+        outs = sorted(k for k in r.get_all_keys() if k.startswith('output: %s #' % o.alias) and k.endswith('.output'))
+        exp_keys = sorted('output: %s #%d.output' % (o.alias, n) for n in range(1, n1 + n2 + 1))
+        sent = sorted(V.canon(a) for (alias, a, kw) in rec.svc.sent)
+        run.say('%d + %d calls of %s from two threads: recorded keys %s' % (n1, n2, o.alias, [k.split('#')[1] for k in outs]))
+        run.ev('threaded', n1, n2, outs)
+        if outs != exp_keys:
+            run.violate('one_entry_per_call', 'concurrent-calls-share-an-ordinal', '%d calls of one alias from two threads were recorded under keys %s' % (n1 + n2, [k.split('#')[1] for k in outs]))
+            return run
+        got = sorted(V.canon(tuple((r.get_data(k)['hargs'] if o.handler else r.get_data(k)['args']))) for k in outs)
+        run.check(got == sent, 'recorded_outputs_equal_sent', 'concurrent-values-differ', lambda: 'recorded values %s, sent %s' % (got[:4], sent[:4]))
+    finally:
+        store.close()
+    return run
+
+
 def _run(tape, clock):
+    if tape.draw(8) == 7:
+        return threaded_same_alias(tape, clock)
     run = Run(PROP)
     V.set_flavour(tape)
+    if tape.draw(6) == 5:
+        poison(run)
     many = tape.draw(3) == 2
     spec = R.gen_service(tape, run, max_steps=30 if many else 12, max_inputs=2, max_outputs=1 if many else 3, threads=False)
     if not spec.outputs:
